@@ -1,4 +1,5 @@
 import Pcore.Proofs.HashImpl
+import Pcore.Proofs.ArrayImpl
 /-!
 Histories over a pool of hashes: every step of the implementation model preserves the invariant of every
 hash in the pool and answers what the specification machine answers.
@@ -172,6 +173,65 @@ theorem stepH_refines (key : α → κ) (pool : List (Hash α β κ)) (hp : Pool
         simp only [hm, Option.map_some]
         refine ⟨hp.set hni, ?_⟩
         rw [absPool_set', hne]
+  | slice i x y =>
+    simp only [stepHImpl, stepHSpec, absPool_get]
+    cases hg : pool[i]? with
+    | none => exact ⟨hp, rfl⟩
+    | some h =>
+      have hi := hp.get hg
+      by_cases hb : x ≤ y ∧ y ≤ h.entries.length
+      · simp only [Hash.slice, hb, and_self, if_true, Option.map_some]
+        refine ⟨hp.append (HInv.wrap ?_), by simp [absPool_append, Hash.wrap]⟩
+        have hsub : ((h.entries.drop x).take (y - x)).Sublist h.entries :=
+          (List.take_sublist _ _).trans (List.drop_sublist _ _)
+        exact List.Nodup.sublist (hsub.map _) hi.1
+      · simp only [Hash.slice, hb, if_false, Option.map_some]
+        exact ⟨hp, by simp [hb]⟩
+  | select i ks =>
+    simp only [stepHImpl, stepHSpec, absPool_get]
+    cases hg : pool[i]? with
+    | none => exact ⟨hp, rfl⟩
+    | some h =>
+      have hi := hp.get hg
+      have he : (h.selectPairs (fun e => (ks.map key).contains (key e.1)) : Hash α β κ).entries =
+          h.entries.filter (fun e => (ks.map key).contains (key e.1)) := by
+        simp [Hash.selectPairs, Hash.wrap, Arr.rejectLoop_eq]
+      simp only [Option.map_some]
+      refine ⟨hp.append ⟨?_, by simp [Hash.selectPairs, Hash.wrap]⟩, by rw [absPool_append, he]⟩
+      rw [he]
+      exact List.Nodup.sublist (List.filter_sublist.map _) hi.1
+  | reject i ks =>
+    simp only [stepHImpl, stepHSpec, absPool_get]
+    cases hg : pool[i]? with
+    | none => exact ⟨hp, rfl⟩
+    | some h =>
+      have hi := hp.get hg
+      have he : (h.rejectPairs (fun e => (ks.map key).contains (key e.1)) : Hash α β κ).entries =
+          OMap.deleteAll key h.entries (ks.map key) := by
+        simp [Hash.rejectPairs, Hash.wrap, Arr.rejectLoop_eq, OMap.deleteAll]
+      simp only [Option.map_some]
+      refine ⟨hp.append ⟨?_, by simp [Hash.rejectPairs, Hash.wrap]⟩, by rw [absPool_append, he]⟩
+      rw [he]
+      exact nodup_deleteAll hi.1 _
+  | sort i le =>
+    simp only [stepHImpl, stepHSpec, absPool_get]
+    cases hg : pool[i]? with
+    | none => exact ⟨hp, rfl⟩
+    | some h =>
+      have hi := hp.get hg
+      simp only [Option.map_some]
+      refine ⟨hp.append (HInv.wrap ?_), by simp [absPool_append, Hash.sort, Hash.wrap]⟩
+      have hperm : (keys key (h.entries.mergeSort (fun a b => le a.1 b.1))).Perm (keys key h.entries) :=
+        (List.mergeSort_perm _ _).map _
+      exact hperm.nodup_iff.mpr hi.1
+  | eachSlice i n =>
+    simp only [stepHImpl, stepHSpec, absPool_get]
+    cases hg : pool[i]? with
+    | none => exact ⟨hp, rfl⟩
+    | some h =>
+      by_cases hn : n < 1
+      · simp [Hash.eachSlice, Arr.eachSlice, hn, hp]
+      · simp [Hash.eachSlice, Arr.eachSlice_eq n hn, hn, hp]
 
 /-! ### whole histories (fixed model; `Props/C09.lean` restates these for the fact-driven model) -/
 section
